@@ -12,6 +12,10 @@
   A buffer position `p[offset:]` is represented by the remaining suffix of the buffer where the
   code only ever moves forward byte by byte (validators); `Origin.Bytes`, which computes absolute
   slice bounds (`gts.Min(start+10, len(p)-1)`), keeps the absolute index.
+  The two index-based transliterations (`NewOrigin`'s and `Bytes`' loops) re-slice the buffer from
+  its start and are quadratic as list programs; each is followed by a linear suffix-carrying form
+  (`…S`) with a proof that the two are equal, registered `@[csimp]` so that the compiled driver
+  runs the linear form (the equalities are audited obligations of C16).
   Core Lean only.
 -/
 import Gts.Model.Pars
